@@ -1,5 +1,6 @@
 import LunaVerif.Core.Proto
 import LunaVerif.Model.Usb3.Scrambler
+import LunaVerif.Model.Usb3.PhyTx
 open LunaVerif LunaVerif.Proto LunaVerif.Crc LunaVerif.Scrambler
 
 def symsOf (data ctrl : Nat) : List Symbol :=
@@ -17,16 +18,23 @@ def outRow (o : Out) : List Nat :=
 /-- config line: `# model initS initD`.
 model 0: `clear advance`                                   -> `value`                 (ScramblerLFSR)
 model 1: `clear enable hold valid data ctrl ready`         -> `valid data ctrl sink_ready lfsr_state`   (Scrambler / Descrambler)
-model 2: same inputs, scrambler feeding a descrambler      -> the scrambler's five outputs, then the descrambler's -/
+model 2: same inputs, scrambler feeding a descrambler      -> the scrambler's five outputs, then the descrambler's
+model 3: `sink.valid sink.data sink.ctrl can_send_skp enable_scrambling tx_electrical_idle`
+                                                           -> `phy.tx_data phy.tx_datak sink.ready`
+         (transmit half of USB3PhysicalLayer: Scrambler(0xffff) -> CTCSkipInserter -> PHY; sink.valid is unused) -/
 def main : IO Unit :=
-  runDriver (σ := Nat × Nat × Nat × Reg × Reg)
-    (fun cfg => (fld cfg 0, fld cfg 1, fld cfg 2, initReg (fld cfg 1), initReg (fld cfg 2)))
-    (fun (model, iS, iD, rS, rD) i =>
+  runDriver (σ := Nat × Nat × Nat × Reg × Reg × PhyTx.State)
+    (fun cfg => (fld cfg 0, fld cfg 1, fld cfg 2, initReg (fld cfg 1), initReg (fld cfg 2), PhyTx.init))
+    (fun (model, iS, iD, rS, rD, pt) i =>
       match model with
-      | 0 => ((model, iS, iD, lfsrStep iS rS (n2b (fld i 0)) (n2b (fld i 1)), rD), [ofLsbBits (lfsrValue rS)])
+      | 0 => ((model, iS, iD, lfsrStep iS rS (n2b (fld i 0)) (n2b (fld i 1)), rD, pt), [ofLsbBits (lfsrValue rS)])
       | 1 =>
         let (r, o) := step iS rS (inOf i)
-        ((model, iS, iD, r, rD), outRow o)
-      | _ =>
+        ((model, iS, iD, r, rD, pt), outRow o)
+      | 2 =>
         let ((r1, r2), oS, oD) := pairStep iS iD (rS, rD) (inOf i)
-        ((model, iS, iD, r1, r2), outRow oS ++ outRow oD))
+        ((model, iS, iD, r1, r2, pt), outRow oS ++ outRow oD)
+      | _ =>
+        let (pt', o) := PhyTx.step pt
+          ⟨symsOf (fld i 1) (fld i 2), n2b (fld i 3), n2b (fld i 4), n2b (fld i 5)⟩
+        ((model, iS, iD, rS, rD, pt'), [Ss.packData o.tx, Ss.packCtrl o.tx, b2n o.sinkReady]))
